@@ -69,7 +69,9 @@ def make_case(rng, kind=None):
         # judged hop: nothing of it may survive into the next hop
         others = [j for j in range(N) if j not in (s, t)]
         pt = int(others[int(rng.integers(0, len(others)))])
-        E[pt] = E[s] + 1e3 * (abs(avail) + 1.0)
+        # unreachable whatever the direction: the kinetic energy along ANY direction is at most the total kinetic energy
+        # (thorough seed 80: `avail`, the energy along the judged direction, was used here; with heavy masses the total was larger)
+        E[pt] = E[s] + 1e3 * (0.5 * float(np.sum(np.asarray(mass, dtype=np.float64) * np.asarray(v) ** 2)) + abs(avail) + 1.0)
         c["pre"] = dict(t=pt, d=rng.normal(size=n) * 10 ** rng.uniform(-1, 1))
     return c
 
